@@ -475,6 +475,12 @@ fn fault_menu(w: &Worker, st: &State, full_trunc: bool) -> Vec<(String, Option<V
             m.push((format!("{dn}-primary+adv{n}-bak"), Some(dmg), false));
         }
     }
+    // the pair was once synced with the roots named in the OTHER order: a parseable adversarial archive sits under
+    // the (B, A) file name while the (A, B) one is absent or damaged — it belongs to a different pair and must not be used
+    for n in ["A", "B"] {
+        m.push((format!("swapped-file-adv{n}+absent"), None, false));
+        m.push((format!("swapped-file-adv{n}+zero-length"), Some(Vec::new()), false));
+    }
     // wrong shape: valid JSON objects with fields missing or mistyped
     let ent = |t: &Tree| -> Value { t.iter().map(|(p, id)| (p.clone(), json!({"blake3": hash_of(*id).to_vec(), "ftype": "File"}))).collect::<serde_json::Map<_, _>>().into() };
     let shapes = vec![
@@ -797,6 +803,16 @@ fn worker_job(w: &Worker, job: &Job) -> JobOut {
                         let _ = std::fs::write(format!("{}.bak", ap.display()), v);
                         let _ = std::fs::write(format!("{}.tmp", ap.display()), v);
                     }
+                }
+                if name.starts_with("swapped-file-adv") {
+                    let (first, second) = if name.contains("advA") { (&st.a, &st.b) } else { (&st.b, &st.a) };
+                    let mut t = first.clone();
+                    for (p, c) in second {
+                        t.entry(p.clone()).or_insert(*c);
+                    }
+                    let sp = w.archive_file(&w.b, &w.a);
+                    let _ = std::fs::create_dir_all(sp.parent().unwrap_or(&w.home));
+                    let _ = std::fs::write(&sp, w.archive_json(&w.b, &w.a, &t, None, 1));
                 }
                 if name.contains("-primary+adv") {
                     let _ = std::fs::write(format!("{}.bak", ap.display()), adversarial_archive(w, st, name.contains("+advA-")));
